@@ -338,7 +338,9 @@ class Ctx:
                          "samples": [], "evaluations": 0, "distinct_nontrivial": 0,
                          "rule": "", "exhaustive": False, "runs": []}
         self.assumptions = []
-        self.workdir = os.path.join(WORK, "%s-%s" % (pid, tier))
+        # runs against another checkout (VERIF_REPO) get their own scratch directory and replay names
+        self._suffix = "" if repo_root() == "/repo" else "-" + hashlib.sha1(repo_root().encode()).hexdigest()[:6]
+        self.workdir = os.path.join(WORK, "%s-%s%s" % (pid, tier, self._suffix))
         shutil.rmtree(self.workdir, ignore_errors=True)
         os.makedirs(self.workdir, exist_ok=True)
         os.makedirs(REPLAYS, exist_ok=True)
@@ -391,7 +393,7 @@ class Ctx:
                 print(msg, flush=True)
             return False
         self._nrep += 1
-        path = os.path.join(REPLAYS, "%s-%s-%d.json" % (self.id, self.tier, self._nrep))
+        path = os.path.join(REPLAYS, "%s-%s%s-%d.json" % (self.id, self.tier, self._suffix, self._nrep))
         with open(path, "w") as fh:
             json.dump({"property": self.id, "key": key, "message": message, "replay": replay_obj}, fh, indent=1)
         self.violations.append((message, path))
@@ -424,7 +426,8 @@ class Ctx:
             "violations": len(self.violations),
         }
         os.makedirs(EVIDENCE, exist_ok=True)
-        with open(os.path.join(EVIDENCE, self.id + ".json"), "w") as fh:
+        evdir = EVIDENCE if not self._suffix else self.workdir     # only runs on /repo itself write /verif/evidence
+        with open(os.path.join(evdir, self.id + ".json"), "w") as fh:
             json.dump(ev, fh, indent=1, sort_keys=True, default=str)
         return 1 if self.violations else 0
 
